@@ -1,9 +1,9 @@
 #!/bin/bash
 # tools/evalmut.sh <mutation-dir> [check-ids...]   (development aid, not a registered check)
-# 1. validates a seeded change in a scratch worktree of /repo (demo passes without it, the
-#    repository suite passes with it, the demo fails with it);
-# 2. applies it to /repo, runs the named checks (default: the property in meta.json) at the quick
-#    tier, and undoes it straight afterwards. Evidence and replays of /verif are preserved.
+# Validates a seeded change in a scratch worktree of /repo (demo passes without it, the repository
+# suite passes with it, the demo fails with it), then runs the named checks (default: the property
+# in meta.json) against that worktree (VERIF_REPO/VERIF_OUT), and removes the worktree.
+# With IN_REPO=1 the change is instead applied to /repo itself and undone straight afterwards.
 set -u
 D=$(readlink -f "$1"); shift
 export GOFLAGS=-mod=mod GOPROXY=off GOSUMDB=off GOTOOLCHAIN=local
@@ -12,29 +12,32 @@ DEST=$(jq -r .demo_dest "$D/meta.json")
 RUN=$(jq -r .demo_run "$D/meta.json")
 CHECKS=("$@"); [ ${#CHECKS[@]} -eq 0 ] && CHECKS=("$PROP")
 TIER=${EVAL_TIER:-quick}
-W=/tmp/val-$$
+W=/tmp/val-$$; O=/tmp/valout-$$
+git -C /repo worktree add -q --detach "$W" HEAD || exit 2
+trap 'git -C /repo worktree remove --force "$W" 2>/dev/null; rm -rf "$O"' EXIT
 if [ "${SKIP_VALIDATE:-0}" != 1 ]; then
-  git -C /repo worktree add -q --detach "$W" HEAD || exit 2
-  trap 'git -C /repo worktree remove --force "$W" 2>/dev/null' EXIT
-  cp "$D/demo_test.go" "$W/$DEST"
+  mkdir -p "$W/$(dirname "$DEST")"; cp "$D/demo_test.go" "$W/$DEST"
   ( cd "$W" && eval "$RUN" ) >"$D/val_pristine.log" 2>&1; r1=$?
   ( cd "$W" && git apply "$D/patch.diff" ) || { echo "RESULT $D patch-does-not-apply"; exit 2; }
   ( cd "$W" && eval "$RUN" ) >"$D/val_mutant.log" 2>&1; r3=$?
   rm -f "$W/$DEST"
   ( cd "$W" && go build ./... && go test -vet=off -count=1 ./... ) >"$D/val_suite.log" 2>&1; r2=$?
-  git -C /repo worktree remove --force "$W"; trap - EXIT
   echo "VALIDATE $D demo_pristine_rc=$r1 suite_with_mutant_rc=$r2 demo_mutant_rc=$r3"
   if [ $r1 -ne 0 ] || [ $r2 -ne 0 ] || [ $r3 -eq 0 ]; then echo "RESULT $D INVALID"; exit 3; fi
+else
+  ( cd "$W" && git apply "$D/patch.diff" ) || { echo "RESULT $D patch-does-not-apply"; exit 2; }
 fi
 cd /verif
-if [ -n "$(git -C /repo status --porcelain)" ]; then echo "/repo is dirty; refusing"; exit 2; fi
-BK=/tmp/evbak-$$; mkdir -p $BK; cp -a evidence $BK/; cp -a replays $BK/ 2>/dev/null
-git -C /repo apply "$D/patch.diff" || { echo "cannot apply to /repo"; exit 2; }
 for c in "${CHECKS[@]}"; do
   s=$(date +%s)
-  timeout 3600 ./check "$c" --tier "$TIER" >"$D/detect_$c.log" 2>&1; rc=$?
+  if [ "${IN_REPO:-0}" = 1 ]; then
+    [ -n "$(git -C /repo status --porcelain)" ] && { echo "/repo is dirty; refusing"; exit 2; }
+    git -C /repo apply "$D/patch.diff" || exit 2
+    VERIF_OUT=$O timeout 3600 ./check "$c" --tier "$TIER" >"$D/detect_$c.log" 2>&1; rc=$?
+    git -C /repo checkout -- .
+  else
+    VERIF_REPO=$W VERIF_OUT=$O timeout 3600 ./check "$c" --tier "$TIER" >"$D/detect_$c.log" 2>&1; rc=$?
+  fi
   e=$(date +%s)
-  echo "DETECT $D check=$c tier=$TIER rc=$rc $((e-s))s $(grep -c '^VIOLATION' "$D/detect_$c.log") violation lines; first: $(grep -A1 '^VIOLATION' "$D/detect_$c.log" | sed -n 2p | cut -c1-220)"
+  echo "DETECT $D check=$c tier=$TIER rc=$rc $((e-s))s viol_lines=$(grep -c '^VIOLATION' "$D/detect_$c.log") first: $(grep -A1 '^VIOLATION' "$D/detect_$c.log" | sed -n 2p | cut -c1-240)"
 done
-git -C /repo checkout -- .
-rm -rf evidence replays; cp -a $BK/evidence .; [ -d $BK/replays ] && cp -a $BK/replays .; rm -rf $BK
